@@ -20,7 +20,7 @@ from irlib import AnalysisBroken, V
 
 MAX_STATES = 96
 MAX_DEPTH = 14
-MAX_HOUDINI = 12
+MAX_HOUDINI = 60
 
 
 class Obligation:
@@ -1362,10 +1362,13 @@ class Interp:
         outer_written = st.written
         signs = {}            # what-key -> signedness override of the loop-head symbol
         flipped = set()
+        partners = []         # constraints met in the body that relate head symbols to outer symbols
+        harvested = False
+        stsyms = st.cons.syms()
         for it in range(MAX_HOUDINI + 4):
             H, newsyms = self.build_head(st, fn, L, phis, inits, modified, smashed, signs)
             if templ is None:
-                templ = self.gen_candidates(st, newsyms)
+                templ = self.gen_candidates(st, newsyms, partners)
             ren = {('$', n): ns[0] for n, ns in enumerate(newsyms)}
             cands = [c.subst(ren) for c in templ]
             for c in cands:
@@ -1377,13 +1380,37 @@ class Interp:
             finally:
                 self.recording -= 1
             w = H.written
+            # ('smashvar', obj): a variable-offset store; the cells it could
+            # overlap were dropped (and recorded individually) at the store
             new_mod = set(k for k in w if k[0] not in ('smash', 'smashvar')) - modified
-            new_smash = set(k[1] for k in w if k[0] in ('smash', 'smashvar')) - smashed
+            new_smash = set(k[1] for k in w if k[0] == 'smash') - smashed
             if new_mod or new_smash:
                 modified |= new_mod
                 smashed |= new_smash
                 templ = None
                 continue
+            if not harvested:
+                # predicates from the program: constraints of the latch/exit
+                # states that mention a loop-head symbol become candidate
+                # shapes (generalised by small constants) for the next pass
+                harvested = True
+                hs = {next(iter(ns[0].t)): ('$', n) for n, ns in enumerate(newsyms)}
+                base = H.cons.keys
+                found = {}
+                for T in [x[0] for x in latches] + [x[0] for x in exits]:
+                    for c in T.cons.items:
+                        if c.key() in st.cons.keys or len(c.t) > 4:
+                            continue
+                        if not any(sy in hs for sy in c.t):
+                            continue
+                        if any((isinstance(sy, str) and sy not in hs and sy not in stsyms) for sy in c.t):
+                            continue
+                        found[c.subst({k: Lin.sym(v) for k, v in hs.items()}).key()] = \
+                            c.subst({k: Lin.sym(v) for k, v in hs.items()})
+                if found:
+                    partners = list(found.values())[:40]
+                    templ = None
+                    continue
             keep = []
             lsub = []
             reflip = False
@@ -1392,8 +1419,11 @@ class Interp:
                 for wk in bad:
                     if wk not in flipped:
                         flipped.add(wk)
-                        cur = [n for n in newsyms if self.what_key(n[2]) == wk][0][4]
-                        signs[wk] = not cur
+                        if wk[0] == 'pstride':
+                            signs[wk] = True
+                        else:
+                            cur = [n for n in newsyms if self.what_key(n[2]) == wk][0][4]
+                            signs[wk] = not cur
                         reflip = True
                 lsub.append((T, m))
             if reflip:
@@ -1461,9 +1491,15 @@ class Interp:
                 H.env[('i', ph.id)] = x
                 newsyms.append(((x.s if signed else x.u), init, ('phi', ph), iv.w, signed))
             elif isinstance(iv, PtrVal) and iv.obj is not None:
-                x = H.fresh_int(64, True, 'poff_' + hint)
-                H.env[('i', ph.id)] = PtrVal(iv.obj, x.s, iv.lo, iv.hi, iv.nonnull)
-                newsyms.append((x.s, iv.off, ('pphi', ph), 64, True))
+                # pointer phi: offset = entry offset + stride * x, x a fresh
+                # integer (stride = pointee size, so that p != end over
+                # elements is exact integer reasoning)
+                stride = ph.ty.get('elemsize') or 1
+                if signs.get(('pstride', ph.id)):
+                    stride = 1
+                x = H.fresh_int(64, True, 'pidx_' + hint)
+                H.env[('i', ph.id)] = PtrVal(iv.obj, iv.off + x.s * stride, iv.lo, iv.hi, iv.nonnull)
+                newsyms.append((x.s, Lin(0), ('pphi', ph, stride, iv.off), 64, True))
             elif isinstance(iv, CondVal):
                 H.env[('i', ph.id)] = CondVal('unknown')
             elif isinstance(iv, PtrVal):
@@ -1562,7 +1598,13 @@ class Interp:
                         if l is None:
                             bad.append(self.what_key(what))
                 elif isinstance(nv, PtrVal) and nv.obj is not None:
-                    l = nv.off
+                    d = nv.off - what[3]
+                    if what[2] == 1:
+                        l = d
+                    elif d.divisible(what[2]):
+                        l = d.div_exact(what[2])
+                    else:
+                        bad.append(('pstride', ph.id))
             elif what[0] == 'cell':
                 nv = T.mem.get(what[1])
                 if isinstance(nv, IntVal):
@@ -1580,7 +1622,7 @@ class Interp:
         m['__missing__'] = missing
         return m, bad
 
-    def gen_candidates(self, st, newsyms):
+    def gen_candidates(self, st, newsyms, partners=()):
         """template candidates (over placeholders ('$', i) standing for the
         i-th loop-head symbol) that hold on loop entry"""
         from lin import normalize, cone
@@ -1630,6 +1672,9 @@ class Interp:
                 for k in (0, -1):
                     add(xl - yl - k)      # x <= y + k
                     add(yl - xl - k)      # x >= y - k
+        for c in partners:
+            for k in (0, 1, 2, -1):
+                add(c - k)
         for a in range(len(usable)):
             for b in range(a + 1, len(usable)):
                 xa, ia = usable[a]
